@@ -8,7 +8,8 @@ PROP = "C07"
 ENGINE = "S"
 MIS = ["no_token", "foreign_token", "pending_token", "used_token", "cancelled_token", "wrong_kind_token",
        "cancel_unknown", "cancel_used", "cancel_cancelled"]
-RULE = ("Engine S histories with misuse calls mixed into valid ones (other reservations and items present): put/get with "
+RULE = ("Engine S histories with misuse calls mixed into valid ones (other reservations and items present; a macro lets one process "
+        "take several grants on one side, retire one that is not its oldest and present that dead token again): put/get with "
         "no token, another actor's granted token, a pending / used / cancelled token, a token of the other kind; cancel "
         "of an unknown / used / cancelled token. Oracle: each misuse raises exactly RuntimeError; items/ready_items "
         "(identity and order), occupancy and the triggered flag of every live token are identical before and after; "
@@ -36,7 +37,7 @@ def _fix(case):
 
 
 def strategy(tier):
-    return gen_store.case(CLASSES, WEIGHTS, max_ops=40).map(_fix)
+    return gen_store.case(CLASSES, WEIGHTS, max_ops=40, macros=4, extra=4).map(_fix)
 
 
 shrink_candidates = gen_store.shrink_candidates
